@@ -188,6 +188,13 @@ void visitorChecks(const Node &root, const std::string &rootPath, rt::Rng &rng) 
         }
     }
     if (cwd() != before) fail("visitor-not-restored", "visitor", "working directory is " + esc(cwd()) + " after the visitor was destroyed, before it was " + esc(before));
+    if (!gCaseFailed && rng.chance(300)) {
+        // the static functions the visitor is built on
+        Path::setWorkingDirectory(Path(rootPath));
+        if (cwd() != rootPath || Path::getWorkingDirectory().toString() != rootPath) fail("getWorkingDirectory-wrong", "setWorkingDirectory", "setWorkingDirectory(Path)/getWorkingDirectory() disagree with the process");
+        Path::setWorkingDirectory(before);
+        if (cwd() != before) fail("getWorkingDirectory-wrong", "setWorkingDirectory", "setWorkingDirectory(string) did not change the directory");
+    }
 }
 
 // A chain of nested directories with long names: the working directory grows well beyond 255 bytes
@@ -310,6 +317,17 @@ void stringCase(uint64_t c, rt::Rng rng) {
         if (Path(j).isAbsolute() != (d[0] == '/')) return fail("isAbsolute-wrong", "isAbsolute", "isAbsolute('" + esc(j) + "')");
         // three-argument joins fold from the left
         if (rng.chance(300)) { std::string n2 = segment(rng); if (Path::join(d, n, n2) != Path::join(Path::join(d, n), n2)) return fail("join-inconsistent", "join", "variadic join differs from nested joins"); }
+        // Path overloads and the literal agree with the string functions
+        if (rng.chance(200)) {
+            std::string n2 = segment(rng), n3 = segment(rng);
+            Path viaPaths = Path::join(Path(d), Path(n), Path(n2), Path(n3));
+            if (viaPaths.toString() != Path::join(d, n, n2, n3)) return fail("join-inconsistent", "join", "variadic join(Path...) differs from join(string...)");
+            Path sp;
+            sp.setPath(j);
+            if (sp.toString() != j || sp.getPathName() != n) return fail("join-inconsistent", "setPath", "setPath()/toString() do not round-trip");
+            using namespace tulz;
+            if (("a/b"_p).toString() != "a/b" || Path::getSystemPath().toString() != "/" || !Path::getSystemPath().isAbsolute()) return fail("join-inconsistent", "literal", "_p literal or getSystemPath() wrong");
+        }
         // (2) joining an absolute path yields that path; joining onto the empty path yields the second
         std::string abs = "/" + segment(rng) + (rng.chance(500) ? "/" + segment(rng) : "");
         ++C.absoluteJoins;
